@@ -1,5 +1,5 @@
 """C07 - empty collections propagate through operators and functions."""
-from lib import driver as D, machine as M
+from lib import driver as D, machine as M, nodetrace as NT
 
 MUTANTS = ["firstOfEmptyFabricates", "cmpEmptyIsFalse"]
 
@@ -32,6 +32,8 @@ def run(ctx):
     ctx.extra["functions_in_table"] = len(table)
     # programs of the whole abstract machine whose last step is one of this property's operations (lib/machine.py)
     verdicts = M.extend(ctx, verdicts, by_id)
+    # node-level trace validation (spec/FPNodeTrace.tla): empty propagation at every node inside every program
+    verdicts = NT.extend(ctx, verdicts, by_id, reruns=[(binary, ["run", ctx.path("cases.ndjson"), ctx.path("obs_traced.ndjson")])])
     return D.finish(ctx, verdicts, by_id, evaluations=len(obs),
                     rule="exhaustive: every binary/unary operator x operand position x {literal {}, absent path, empty variable}; every name of the "
                          "implementation's base and experimental tables x every arity Compile accepts (0..4) with the input empty, and every "
